@@ -136,8 +136,19 @@ def run(ctx):
                             ctx.count("accepted_alteration_outside_protection (header/trailer unsigned)")
     for i in range(0, len(cases), 3000):
         ctx.compare_batch(cases[i:i + 3000], nontrivial=lambda line, impl: True)
-    if ctx.thorough:
-        real_ntlm(ctx)
+    # a real NTLM security context from pyspnego, created by the library's own AuthenticationProvider (so with the context
+    # requirements the library asks for): quick = a sample of the alterations, thorough = 400 per signing mode
+    real_ntlm(ctx)
+
+
+def pick(alts, k):
+    """the first alterations of every kind, then an even spread over the rest"""
+    if len(alts) <= k:
+        return alts
+    head = alts[:k // 3]
+    rest = alts[k // 3:]
+    step = max(1, len(rest) // (k - len(head)))
+    return head + rest[::step][:k - len(head)]
 
 
 def real_ntlm(ctx):
@@ -178,7 +189,7 @@ def real_ntlm(ctx):
             wire = bytes(raw[:24]) + res.buffers[1].data + bytes(raw[off:off + 8]) + res.buffers[3].data
             # NTLM sealing is stateful (sequence numbers): use a fresh client copy per attempt is impossible, so only the
             # first attempt per direction may succeed; alterations are tried first, the authentic frame last
-            for kind, m in alterations(ctx.rng, wire, hl, False)[1:400]:
+            for kind, m in pick(alterations(ctx.rng, wire, hl, False)[1:], 400 if ctx.thorough else 90):
                 sock = rpcsim.FakeSocket(replies=[m])
                 c = rpcsim.sync_client(sock, client)
                 c._sign_header = sign
@@ -208,6 +219,12 @@ def search(ctx, broken, disagreements):
 def replay(ctx, payload):
     v = payload["violation"]["input"]
     print("recorded input:", str(v)[:200])
+    if "wire" not in v:          # found with the real NTLM context (stateful sealing: the whole run is repeated)
+        c2 = type(ctx)(ctx.prop, "quick", ctx.seed)
+        real_ntlm(c2)
+        for x in c2.violations[:3]:
+            print(" ", x["what"], x["input"], x["observed"][:60])
+        return not c2.violations
     out, resp, auth = do_request(bytes.fromhex(v["wire"]), v["header_len"], v["sign"], False)
     print("request() →", out[:200])
     return out.startswith("err ")
